@@ -11,6 +11,16 @@ macro_rules! cinst {
     };
 }
 
+macro_rules! rcinst {
+    ($name:ident, [$i4:expr, $i3:expr, $i2:expr, $i1:expr], $start:expr, $end:expr, $whole:expr, $huge3:expr, $sub5:expr) => {
+        #[kani::proof]
+        #[kani::unwind(514)]
+        #[kani::stub(crate::addr::VirtAddr::as_ptr, crate::structures::paging::mapper::verif_mapper::stub_as_ptr)]
+        fn $name() {
+            cleanup_recursive(CInst { ix: [$i4, $i3, $i2, $i1], start: $start, end: $end, whole: $whole, huge3: $huge3, sub5: $sub5, repeat: false });
+        }
+    };
+}
 // ---- quick tier
 cinst!(c10_range_single_page, [1, 2, 3, 4], 0x8080604000, 0x8080604000, false, false, false, false);
 cinst!(c10_range_p1_unaligned_window, [1, 2, 3, 4], 0x8080664000, 0x80806c8000, false, false, false, false);
@@ -29,3 +39,8 @@ cinst!(c10t_range_to_last_page, [511, 511, 511, 510], 0xffffffffffe00000, 0xffff
 cinst!(c10t_whole_top, [511, 511, 511, 510], 0x0, 0xfffffffffffff000, true, false, false, false);
 cinst!(c10t_range_first_page, [0, 0, 0, 1], 0x0, 0x0, false, false, false, false);
 cinst!(c10t_whole_sub5_huge3, [1, 2, 3, 4], 0x0, 0xfffffffffffff000, true, true, true, false);
+// ---- RecursivePageTable
+rcinst!(c10_rec_range_p1_unaligned_window_nr, [1, 2, 3, 4], 0x8080664000, 0x80806c8000, false, false, false);
+rcinst!(c10t_rec_whole_plain_nr, [1, 2, 3, 4], 0x0, 0xfffffffffffff000, true, false, false);
+rcinst!(c10t_rec_range_two_p1_tables_nr, [1, 2, 3, 4], 0x808040a000, 0x8080614000, false, false, false);
+rcinst!(c10t_rec_whole_huge3_nr, [1, 2, 3, 4], 0x0, 0xfffffffffffff000, true, true, false);
